@@ -353,6 +353,25 @@ fn real_validate(s: &Sch, tid: LocalTypeId, depth: usize, payload: &[u8]) -> (St
     }
 }
 
+/// Error class for oracle keys. `CustomError` is reserved for the Own-wrapper entity-type case
+/// (known finding); a failing Reference validation is reported as `CustomErrorReference`.
+fn err_class(s: &Sch, tid: LocalTypeId, depth: usize, payload: &[u8], ans: &str) -> String {
+    let cls = ans.replace("invalid ", "").replace(' ', "-");
+    if cls == "CustomError" {
+        let r = catch(|| validate_payload_against_schema::<ScryptoCustomExtension, ()>(payload, s, tid, &(), depth).map_err(|e| e.error));
+        if let Ok(Err(PayloadValidationError::ValidationError(ValidationError::CustomError(m)))) = r {
+            if m.starts_with("Expected = Own<") {
+                return "CustomError".to_string();
+            }
+            if m.starts_with("Expected = Reference<") {
+                return "CustomErrorReference".to_string();
+            }
+        }
+        return "CustomErrorOther".to_string();
+    }
+    cls
+}
+
 // ------------------------------------------------------------------------------------------------
 // real SBOR-derived types
 
@@ -1098,14 +1117,14 @@ impl Runner for R22 {
                 if cs == s && ct == tid && depth == 64 {
                     if let Some((re, same)) = c.try_decode(&p) {
                         if !accepted {
-                            return Answer::fail(ans, format!("typed-accepts-schema-rejects:{}:{}", ans.replace("invalid ", "").replace(' ', "-"), c.name()), "typed decoder accepted a payload that does not validate against the type's generated schema");
+                            return Answer::fail(ans.clone(), format!("typed-accepts-schema-rejects:{}:{}", err_class(&s, tid, depth, &p, &ans), c.name()), "typed decoder accepted a payload that does not validate against the type's generated schema");
                         }
                         if !same {
                             return Answer::fail(ans, format!("typed-roundtrip:{}", c.name()), "decode(encode(x)) != x");
                         }
                         let (a2, acc2, _) = real_validate(&s, tid, depth, &re);
                         if !acc2 {
-                            return Answer::fail(ans, format!("encoded-rejected:{}:{}", a2.replace("invalid ", "").replace(' ', "-"), c.name()), format!("encoding of a typed value does not validate against the generated schema: {}", a2));
+                            return Answer::fail(ans, format!("encoded-rejected:{}:{}", err_class(&s, tid, depth, &re, &a2), c.name()), format!("encoding of a typed value does not validate against the generated schema: {}", a2));
                         }
                     }
                 }
@@ -1116,7 +1135,7 @@ impl Runner for R22 {
     }
 }
 
-include!("c22_c23part.rs");
+include!("c22_c23part.inc");
 
 fn main() {
     main_with(&[("c22", &A22), ("c23", &A23)]);
